@@ -195,6 +195,48 @@ fn lifetime_window(n: usize, total: usize) -> (String, String, String) {
     (early, later, ex)
 }
 
+/// The scope-exit window: the injector holds a `times: N` fake on `target` (oldest) and a newer boolean
+/// fake on another function; after the N admitted calls it is dropped while a helper thread makes one
+/// matching call at every point where the dropping thread frees memory (it is parked in the allocator
+/// there: an entry is either still patched or completely restored, and a trampoline is unmapped only
+/// after its entry was restored).  Calls that reach the fake are matching calls like any other: beyond N
+/// they are refused at the call, and the scope exit names them.
+fn lifetime_exit_window(n: usize) -> (String, String, String) {
+    use crate::winalloc::{ARMED_FREE, DONE, REQ};
+    use std::sync::atomic::{AtomicBool, Ordering};
+    #[inline(never)]
+    fn other() -> bool {
+        std::hint::black_box(false)
+    }
+    let stop = Arc::new(AtomicBool::new(false));
+    let st = stop.clone();
+    let helper = std::thread::spawn(move || {
+        let mut res = String::new();
+        loop {
+            if REQ.load(Ordering::SeqCst) > DONE.load(Ordering::SeqCst) {
+                res.push(one_call(true));
+                DONE.fetch_add(1, Ordering::SeqCst);
+            } else if st.load(Ordering::SeqCst) {
+                break;
+            } else {
+                std::thread::yield_now();
+            }
+        }
+        res
+    });
+    let mut inj = InjectorPP::new();
+    inj.when_called(shadow::func!(fn (target)(i32) -> i32)).will_execute(mk(n));
+    inj.when_called(shadow::func!(fn (other)() -> bool)).will_return_boolean(true);
+    let first: String = (0..n).map(|_| one_call(true)).collect();
+    ARMED_FREE.with(|a| a.set(true));
+    let r = quiet_catch(std::panic::AssertUnwindSafe(move || drop(inj)));
+    ARMED_FREE.with(|a| a.set(false));
+    stop.store(true, Ordering::SeqCst);
+    let late_all = helper.join().unwrap();
+    let late: String = late_all.chars().filter(|&c| c != '?').collect();
+    (first, late, exit_class(r))
+}
+
 fn script_str(s: &[bool]) -> String {
     if s.is_empty() {
         return "-".into();
@@ -261,6 +303,13 @@ pub fn run(a: &Args, out: &mut impl Write) {
             let ex = exit_class(quiet_catch(std::panic::AssertUnwindSafe(move || drop(inj))));
             writeln!(out, "cntunw {} 1 {} | {} exit={}", n, "m".repeat(n + extra), outs, ex).unwrap();
         }
+    }
+    // ---- C06: matching calls that arrive while the scope exit is still running
+    for n in 0..=2usize {
+        let (first, late, ex) = lifetime_exit_window(n);
+        let sc = |o: &str| if o.is_empty() { "-".to_string() } else { "m".repeat(o.len()) };
+        let os = |o: &str| if o.is_empty() { "-".to_string() } else { o.to_string() };
+        writeln!(out, "cntexit {} 2 {}/{} | {}/{} exit={}", n, sc(&first), sc(&late), os(&first), os(&late), ex).unwrap();
     }
     // ---- C06: matching calls that arrive while the installation is still running
     for n in 1..=3usize {
